@@ -24,7 +24,7 @@ STRUCTURAL = ("NewGroup", "GroupLayers", "Append", "Extend", "Insert", "Remove",
               "DelItem", "DeleteLayer", "MoveToGroup", "MoveUp", "MoveDown")
 SETTERS = ("SetVisible", "SetLeft", "SetTop", "SetClip")
 OBSERVERS = ("ObsBbox", "ObsSize", "ObsRepr", "ObsDesc", "ObsFind", "ObsVisible", "ObsExport")
-EXPORT_KINDS = {0: "topil", 1: "numpy", 2: "composite", 3: "save-to-buffer", 4: "mask/effects/print reads"}
+EXPORT_KINDS = {0: "topil", 1: "numpy", 2: "composite", 3: "save-to-buffer", 4: "mask/effects/print reads", 5: "composite(layer_filter)"}
 
 _quiet = False
 
@@ -317,6 +317,8 @@ class World:
                 ob.numpy()
             elif kk == 2:
                 ob.composite()
+            elif kk == 5:
+                ob.composite(layer_filter=lambda l: True)
             elif kk == 3:
                 if hasattr(ob, "save"):
                     ob.save(io.BytesIO())
@@ -492,7 +494,7 @@ def ops_for(kinds, fam, pos=(-3, -2, -1, 0, 1, 2, 3), offs=(-2, -1, 0, 1, 2), pa
     if "ObsVisible" in fam:
         out += [("ObsVisible", x) for x in range(n)]
     if "ObsExport" in fam:
-        out += [("ObsExport", x, k) for x in range(n) for k in range(5)]
+        out += [("ObsExport", x, k) for x in range(n) for k in range(6)]
     return out
 
 
@@ -538,7 +540,7 @@ def random_op(rng, kinds, fam, pos=(-3, -2, -1, 0, 1, 2, 3, 7), offs=(-3, -2, -1
         if f in ("ObsBbox", "ObsSize", "ObsRepr", "ObsVisible"):
             return (f, rng.randrange(n))
         if f == "ObsExport":
-            return (f, rng.choice(docs) if docs and rng.random() < 0.6 else rng.randrange(n), rng.randrange(5))
+            return (f, rng.choice(docs) if docs and rng.random() < 0.6 else rng.randrange(n), rng.randrange(6))
         if f == "ObsFind":
             return (f, g, x)
     return ("NewDoc", 8, 8)
